@@ -40,7 +40,7 @@ func Run(ctx *core.Ctx) {
 	run := &Runner{Pool: pool}
 	ctx.Extra["js_engine"] = pool.Engine()
 
-	h := &Harness{ctx: ctx, run: run, reasons: map[string]int{}, verdicts: map[string]int{}, sigs: map[string]int{}}
+	h := &Harness{ctx: ctx, run: run, reasons: map[string]int{}, verdicts: map[string]int{}, sigs: map[string]int{}, rejected: map[string]int{}}
 	if ctx.ReplayPath != "" {
 		h.Replay(ctx.ReplayPath)
 		return
@@ -77,6 +77,7 @@ func Run(ctx *core.Ctx) {
 	ctx.Extra["out_of_subset_reasons"] = h.reasons
 	ctx.Extra["verdicts"] = h.verdicts
 	ctx.Extra["violations_by_signature"] = h.sigs
+	ctx.Extra["rejected_by_compiler_by_family"] = h.rejected
 	ctx.Extra["node_restarts"] = pool.Restarts()
 }
 
@@ -90,6 +91,7 @@ type Harness struct {
 	verdicts map[string]int
 	samples  int
 	sigs     map[string]int
+	rejected map[string]int // cases the compiler rejects, by family (expected for model / edge shapes)
 	verbose  bool
 	// fixedFiles, when set (replay), are used instead of unparsing the program
 	fixedFiles []core.File
@@ -162,6 +164,10 @@ func (h *Harness) RandomProgs(n int) []*report {
 			// n.two.n.one.t0 (language rule): such an alias cannot be declared
 			dropAmbiguousAliases(p)
 			c := &Case{Family: "prog-random", Prog: p, Style: core.Style{Parens: r.Intn(2), Tight: r.Intn(3) == 0}}
+			// one body in four programs is emptied (empty case / branch / loop body / content block)
+			if r.Intn(4) == 0 && EmptySomeBody(r.Intn, p) {
+				c.SkipOK = true
+			}
 			cases = append(cases, c)
 		}
 		bs.start(h, cases, "prog-random")
@@ -221,6 +227,9 @@ func (h *Harness) Judge(cases []*Case, label string) []*report {
 	for _, c := range cases {
 		if c.Skip != "" {
 			if c.SkipOK && strings.HasPrefix(c.Skip, "compile:") {
+				h.mu.Lock()
+				h.rejected[c.Family]++
+				h.mu.Unlock()
 				continue // a model program the Soy checker rejects (e.g. an unused let)
 			}
 			skips++
